@@ -103,6 +103,7 @@ func genDispatch(c *ctx) string {
 	b.WriteString("def dirArgWrapperAccepted : Bool := " + dirArgTypeTest(c) + "\n")
 	b.WriteString("def descRaw : Bool := " + descForm(c) + "\n")
 	b.WriteString("def assureOnce : Bool := " + assureSchemaForm(c) + "\n")
+	b.WriteString("def inputNullTakesDefault : Bool := " + inputNullForm(c) + "\n")
 	dlv, tld := dirLoopAndTypeLookupForms(c)
 	b.WriteString("def dirLoopByVisited : Bool := " + dlv + "\n")
 	b.WriteString("def typeLookupFindsDirectives : Bool := " + tld + "\n")
@@ -131,7 +132,7 @@ func genDispatch(c *ctx) string {
 	b.WriteString("def symbolBaseEnum : Bool := " + sbe + "\n")
 	b.WriteString("/-- hashes of the functions that form, coerce and hand on argument values (strings and comments stripped) -/\n")
 	b.WriteString("def argSkeleton : List (String × String) := [\n")
-	argFns := []string{"Input.CoerceIn", "List.CoerceIn", "NonNull.CoerceIn", "Root.formArgs", "Root.formReflectArgs", "Root.replaceArgVars", "Root.resolveField", "checkReflectArgs"}
+	argFns := []string{"Input.CoerceIn", "Input.reflectSet", "Input.reflectSetKey", "List.CoerceIn", "NonNull.CoerceIn", "Root.formArgs", "Root.formReflectArgs", "Root.replaceArgVars", "Root.resolveField", "checkReflectArgs"}
 	for i, name := range argFns {
 		h := "missing"
 		if fd := c.funcs[name]; fd != nil {
@@ -878,4 +879,23 @@ func dirLoopAndTypeLookupForms(c *ctx) (dirLoopByVisited, typeLookupFindsDirecti
 		}
 	}
 	return
+}
+
+// inputNullForm reads the member loop of (*Input).CoerceIn: does an explicit null given for a field that has a
+// default take the default (D85: `ov := tv[k]; if ov == nil` does not tell null from absent — the client's null is
+// silently altered), or is only a field that is left out defaulted?
+func inputNullForm(c *ctx) string {
+	fd := c.funcs["Input.CoerceIn"]
+	if fd == nil {
+		return unknown("Input.CoerceIn", "input.go")
+	}
+	t := regexp.MustCompile(`(?m)//.*$`).ReplaceAllString(c.src(fd.Body), "")
+	src := regexp.MustCompile(`\s+`).ReplaceAllString(t, " ")
+	switch {
+	case strings.Contains(src, "ov := tv[k] if ov == nil { if f.Default != nil {") && !strings.Contains(src, "given"):
+		return "true"
+	case strings.Contains(src, `ov, given := tv[k] if ov == nil { if given { if _, ok := f.Type.(*NonNull); ok { return nil, fmt.Errorf("%s is required but missing", k) } } else if f.Default != nil {`):
+		return "false"
+	}
+	return unknown("Input.CoerceIn null / default", c.pos(fd))
 }
